@@ -4,7 +4,24 @@ Deciding step: the real `lian lang` command is run over an enumerated space of *
 (where the workspace lies relative to the inputs, how it is named and addressed, which flags, what the
 workspace already contains) inside a scratch root full of canaries, while three monitors of lib/monitors/fs.py
 observe: a before/after inventory of the whole root (kind, size, SHA-256, link target, mode), an audit-hook log of
-every mutating Python-level operation with the real path it acted on, and (thorough) strace logs of true CLI runs.
+every mutating Python-level operation with the real path it acted on (forked child), and strace logs of true CLI
+runs (`python src/lian/main.py …`: 36 configurations on the thorough tier, 6 of them on the quick tier) — the
+only channel that sees native code and child processes.
+
+Configuration space (core, 3 328 valid combinations; thorough runs all, quick a seeded covering sample of ~400):
+  placement   disjoint | workspace beside the input | workspace inside the input | input inside the workspace | identical
+  naming      -w omitted (default, relative to cwd) | -w …/lian_workspace | custom name containing `lian_workspace`
+              | custom name to which lian appends `lian_workspace` | -w <existing directory> (appended)
+  addressing  absolute | relative after chdir (input `.`) | -w through a symlinked parent | -w is itself a symlink
+              | -w `link/../name` | input is a symlink | input through a symlinked parent
+  input       one file | one directory | a directory, a file and a second directory
+  old content nothing | files | sub-directories | links to a file / directory outside (absolute and relative)
+  flags       --force | no --force
+plus families on a reduced grid: --incremental, --force --incremental, C header pre-processing (`-l c -I`, spawns
+clang, writes next to the file it is given), --strict-parse-mode, and an old workspace whose `bak`, `src`, `externs`,
+`frontend` entries are links to directories outside.  Every scratch root holds canaries beside the inputs, beside
+the workspace, behind every link, a sibling whose name merely extends the workspace's name, non-matching and
+upper-case-extension files and a symlink cycle inside the input.
 
 Oracle per configuration (W = realpath of the workspace directory lian documents: the `-w` value, with
 `lian_workspace` appended unless the value already contains that substring; default `-w` is `lian_workspace`):
@@ -12,13 +29,17 @@ Oracle per configuration (W = realpath of the workspace directory lian documents
      may appear outside W is the chain of *directories* leading to W (there is no other way to create W);
  (b) every mutating operation (audit / strace) targets a path inside W, or creates such an ancestor directory;
      allow-list: /dev, /proc, and the scratch HOME the harness points HOME/MPLCONFIGDIR/TMPDIR/XDG_CACHE_HOME at
-     (counted and reported, never silently dropped);
+     (counted and reported, never silently dropped; in practice only matplotlib's font cache);
  (c) without --force (and without --incremental) nothing at all changes; with --force whatever disappears lay in W;
- (d) bounded copying: files / bytes under W/src and W/externs do not exceed what the inputs (every real directory
-     counted once, symlinks followed at most once) resp. lian's mock directory hold, W does not grow deeper than
-     the inputs are, and the run does not die inside the copy step.
+ (d) bounded copying: the files / bytes the run wrote under W/src and W/externs do not exceed what the inputs (every
+     real directory counted once, symlinks followed at most once) resp. lian's mock directory hold, nothing is
+     written deeper than the inputs are, and the run does not die inside the workspace-preparation step.
 An input that lies inside a forced workspace is deleted by the very clause that allows cleaning W; such
 configurations are counted (`conflict: …`) and judged by (a)–(d) for everything else only.
+
+Failure signature = <relation of W to the inputs on real paths>[+symlinked-ws]/<naming class>-name:<clause>[flags],
+or, when the affected path lies behind a link of the old workspace / in the directory a lexical reading of
+`-w link/..` names: symlink-in-old-workspace:<clause> / ws-arg-dotdot-through-symlink:<clause>.
 """
 import errno
 import itertools
@@ -400,7 +421,7 @@ def allowed_zone(path, plan):
 
 
 def judge(cfg, plan, exp, before, after, events, outcome, channel="audit"):
-    """Returns (failures [(clause, detail)], counters {key: n})."""
+    """Returns (failures [(clause, detail, zone of the affected path | None)], counters {key: n})."""
     fails, cnt = [], {}
     root, ws = plan["root"], plan["ws_real"]
 
@@ -410,7 +431,7 @@ def judge(cfg, plan, exp, before, after, events, outcome, channel="audit"):
     def fail(clause, detail, path=None):
         zone = zone_of(path, plan, exp) if path else None
         if not any(c == clause and z == zone for c, _, z in fails):
-            fails.append((clause, detail + (f" [{zone}]" if zone else ""), zone))
+            fails.append((clause, detail.replace(plan["top"], "<top>") + (f" [{zone}]" if zone else ""), zone))
 
     def absolute(p):
         return root if p == "." else f"{root}/{p}"
@@ -464,7 +485,7 @@ def judge(cfg, plan, exp, before, after, events, outcome, channel="audit"):
     for ev, op, path, _ in events:
         bump(f"{channel}: mutating operations recorded")
         if op == "recorder-error":
-            fail("monitor-error", f"audit recorder failed on {ev}")
+            bump("audit: recorder errors (harness fault)")
             continue
         if fs.inside(path, ws):
             bump(f"{channel}: operations inside the workspace")
@@ -506,7 +527,8 @@ def judge(cfg, plan, exp, before, after, events, outcome, channel="audit"):
     if kind == "exception":
         etype, msg, where, in_copy = info
         if in_copy:
-            fail(f"died-in-copy-step[{etype}]", f"the run died with {etype} in {where}: {msg[:160]}")
+            msg = msg.replace(plan["top"], "<top>")
+            fail(f"died-in-copy-step[{etype}]", f"the run died with {etype} in {where}: {msg[:200]}")
         else:
             bump(f"run outcome: exception outside the copy step ({etype} in {where})")
     return fails, cnt
@@ -666,7 +688,9 @@ def run_cli_config(item):
                 "wall": round(wall, 1), "effect": [sorted(created), sorted(deleted), sorted(p for p, _ in changed)],
                 "argv": [a.replace(plan["top"], "<top>") for a in plan["argv"]],
                 "workspace": plan["ws_real"].replace(plan["top"], "<top>"),
-                "tail": out[-1500:].replace(plan["top"], "<top>")[-400:]}
+                "symlinked_ws": exp["symlinked_ws"], "symlinked_input": exp["symlinked_input"],
+                "cwd": (plan["cwd"] or "").replace(plan["top"], "<top>"),
+                "tail": out.replace(plan["top"], "<top>")[-400:]}
     finally:
         shutil.rmtree(holder, ignore_errors=True)
 
@@ -813,6 +837,8 @@ def cli_configs():
 
 def absorb(chk, cfg, v, samples_by_rel, kind="config"):
     chk.evaluated(1)
+    if v["counters"].get("audit: recorder errors (harness fault)"):
+        chk.note_inconclusive(f"the audit recorder failed while observing {cfg_key(cfg)}")
     for k, n in v["counters"].items():
         if k == "_allow_listed":
             seen = chk.extra.setdefault("allow_listed_operations_seen", {})
@@ -914,12 +940,17 @@ def main():
         "family_configurations_run": len(fam)}
     run_batch(chk, core, "c18", timeout=240)
     run_batch(chk, fam, "c18f", timeout=240)
-    if thorough:
-        run_cli_batch(chk, cli_configs())
-        chk.require("strace: true CLI runs", 25)
-        chk.require("strace: mutating operations recorded", 1500)
-        chk.require("strace: operations inside the workspace", 1500)
-        chk.require("zygote honesty: CLI run and forked run compared", 25)
+    # true CLI runs under strace: the only channel that sees native code and child processes writing outside the
+    # observed root (36 configurations on the thorough tier, every sixth of them on the quick tier)
+    cli = cli_configs()
+    if not thorough:
+        cli = cli[chk.seed % 6::6]
+    chk.extra["configuration_space"]["cli_strace_runs"] = len(cli)
+    run_cli_batch(chk, cli)
+    chk.require("strace: true CLI runs", 25 if thorough else 5)
+    chk.require("strace: mutating operations recorded", 1500 if thorough else 200)
+    chk.require("strace: operations inside the workspace", 1500 if thorough else 200)
+    chk.require("zygote honesty: CLI run and forked run compared", 25 if thorough else 5)
     chk.require("audit: mutating operations recorded", 5000)
     chk.require("audit: operations inside the workspace", 5000)
     chk.require("snapshot: entries created inside the workspace", 3000)
